@@ -111,6 +111,21 @@ unsafe fn tab_remove(p: usize) -> Option<usize> {
     LIVE.fetch_sub(1, SeqCst);
     Some(v)
 }
+/// size of the live block at `p`, if the allocator tracks one there
+unsafe fn tab_size(p: usize) -> Option<usize> {
+    lock();
+    let mut i = slot_of(p);
+    let mut r = None;
+    while KEYS[i] != 0 {
+        if KEYS[i] == p {
+            r = Some(VALS[i] >> 6);
+            break;
+        }
+        i = (i + 1) & (SLOTS - 1);
+    }
+    unlock();
+    r
+}
 fn enc(l: Layout) -> usize {
     (l.size() << 6) | (l.align().trailing_zeros() as usize)
 }
@@ -918,6 +933,13 @@ impl Worker {
             "ps" => {
                 let n = chewing_get_phoneSeqLen(c);
                 let p = chewing_get_phoneSeq(c);
+                // a client reads chewing_get_phoneSeqLen() elements of the array: they must lie inside the block that
+                // chewing_get_phoneSeq allocated (round 3, after the seeded change C15-phoneseqlen-counts-all-symbols)
+                if let Some(sz) = tab_size(p as usize) {
+                    if 2 * n.max(0) as usize > sz {
+                        self.problem("phoneseq-len-beyond-array", format!("chewing_get_phoneSeqLen = {} but chewing_get_phoneSeq allocated {} bytes ({} elements): reading the announced length runs past the block", n, sz, sz / 2));
+                    }
+                }
                 self.keep(p.cast(), 2 * n.max(0) as usize);
                 self.tok("chewing_get_phoneSeq", &format!("{}:{}", p as usize, n), "");
                 format!("len={}", n)
